@@ -86,3 +86,26 @@ Proof.
   - now apply (unmask p q Hp Hq g (fst c2) (fst c) ra rb).
   - now apply (unmask p q Hp Hq h (snd c2) (snd c) ra rb).
 Qed.
+
+(* with the index component of the first answer being a permutation of 0..n-1 (what TMCG_StackSecret::import
+   enforces), EVERY card of s2 is covered: no card of the shuffled stack is unrelated to the input stack *)
+Corollary cutchoose_every_card_partial (p q g h : Z) (s s2 t : list (Z * Z)) (ss0 ss1 : list (N * Z)) :
+  1 < p -> prime q -> powm g q p = 1 -> powm h q p = 1 ->
+  (forall j x r, nthN ss0 j = Some (x, r) -> 0 <= r) -> (forall j x r, nthN ss1 j = Some (x, r) -> 0 <= r) ->
+  length s = length s2 -> (length s <= max_cards)%nat ->
+  Permutation.Permutation (map fst ss1) (iota (length s)) ->
+  vmix p g h s2 ss1 = Ret t -> vmix p g h s ss0 = Ret t ->
+  forall a, (a < N.of_nat (length s))%N ->
+  exists b c2 c d, nthN s2 a = Some c2 /\ nthN s b = Some c /\ 0 <= d < q /\ (fst c2 mod p, snd c2 mod p) = vmask p g h c d.
+Proof.
+  intros Hp Hq Hg Hh P0 P1 L Hn Perm M1 M0 a Ha.
+  assert (I : In a (map fst ss1)).
+  { apply (Permutation.Permutation_in a (Permutation.Permutation_sym Perm)). now apply in_iota. }
+  apply In_nth_error in I. destruct I as [i Ei].
+  assert (Li : (i < length (map fst ss1))%nat) by (apply nth_error_Some; congruence).
+  rewrite (Permutation.Permutation_length Perm), iota_length in Li.
+  destruct (cutchoose_extract_partial p q g h s s2 t ss0 ss1 Hp Hq Hg Hh P0 P1 L Hn M1 M0 i Li)
+    as (a' & b & c2 & c & d & (r0 & A1) & A2 & _ & B2 & D & E).
+  rewrite nth_error_map, A1 in Ei. cbn in Ei. injection Ei as <-.
+  exists b, c2, c, d. repeat split; try assumption; lia.
+Qed.
